@@ -200,11 +200,94 @@ Fixpoint hoist (s : stm) : list stm :=
 Fixpoint hoist_list (l : list stm) : list stm :=
   match l with [] => [] | x :: r => hoist x ++ hoist_list r end.
 
-Definition xshape_hoisted (tree : list stm) (flat : list ev)
+Definition xshape_hoisted_raw (tree : list stm) (flat : list ev)
   : option (list xstm) :=
   match annot_list (hoist_list (prune_list (calls_only_list tree)))
                    (mkCnt (exit_kinds flat) 0 0 0) with
   | Some (x, c) => match c_kinds c with [] => Some x | _ => None end
+  | None => None
+  end.
+
+(* --- normal forms on the annotated skeleton ---------------------------
+   [guards]: in a loop body, a guard clause `if t: A; continue` followed by
+   REST is `if t: A else: REST`; a `continue` that ends the body is
+   nothing.  (Only clauses directly in the loop body: a `continue` nested
+   deeper keeps its place and kind.) *)
+Definition strip_continue (a : list xstm) : option (list xstm) :=
+  match rev a with
+  | XContinue :: r => Some (rev r)
+  | _ => None
+  end.
+
+(* [gtail x]: x is the last statement of a loop body (or of a branch that
+   is): inside it `continue` still means "nothing more for this
+   iteration", so guard clauses of its branches are eliminated too *)
+Fixpoint gtail (x : xstm) : xstm :=
+  let gl := fix gl (l : list xstm) : list xstm :=
+    match l with
+    | [] => []
+    | XContinue :: nil => []
+    | y :: nil => [gtail y]
+    | XIf j a [] :: rest =>
+        match strip_continue a with
+        | Some a' => [XIf j a' (gl rest)]
+        | None => XIf j a [] :: gl rest
+        end
+    | y :: rest => y :: gl rest
+    end in
+  match x with
+  | XIf i a b => XIf i (gl a) (gl b)
+  | other => other
+  end.
+
+Definition guards (l : list xstm) : list xstm :=
+  match gtail (XIf 0 l []) with
+  | XIf _ a _ => a
+  | _ => l
+  end.
+
+Fixpoint gelim (x : xstm) : xstm :=
+  let go := fix go (l : list xstm) : list xstm :=
+              match l with [] => [] | y :: r => gelim y :: go r end in
+  match x with
+  | XIf i a b => XIf i (go a) (go b)
+  | XLoop i b => XLoop i (guards (go b))
+  | XTry b hs o f =>
+      XTry (go b) (map (fun h => (fst h, go (snd h))) hs) (go o) (go f)
+  | other => other
+  end.
+
+(* [norm_tail]: a loop that is the last statement before the final return,
+   `for ..: ..; if m: break` + `return r`, and the same loop returning from
+   inside, `for ..: ..; if m: return r` + `return ..`, have one normal form:
+   the break form, the final return numbered as the first return merged
+   into it *)
+Definition brk_of (x : xstm) : xstm * list nat :=
+  match x with
+  | XIf j [XRet r] [] => (XIf j [XBreak] [], [r])
+  | other => (other, [])
+  end.
+
+Fixpoint norm_tail (l : list xstm) : list xstm :=
+  match l with
+  | [] => []
+  | XLoop i body :: XRet k :: nil =>
+      [XLoop i (map (fun x => fst (brk_of x)) body);
+       XRet (hd k (flat_map (fun x => snd (brk_of x)) body))]
+  | x :: r => x :: norm_tail r
+  end.
+
+Definition xshape_hoisted (tree : list stm) (flat : list ev)
+  : option (list xstm) :=
+  match xshape_hoisted_raw tree flat with
+  | Some x => Some (norm_tail x)
+  | None => None
+  end.
+
+Definition xshape_guarded (tree : list stm) (flat : list ev)
+  : option (list xstm) :=
+  match xshape tree flat with
+  | Some x => Some (map gelim x)
   | None => None
   end.
 
@@ -396,22 +479,17 @@ Definition x_flush_results_buffer : list xstm :=
           [ ("IndexError", []) ]          (*   raised => limit - 1 *)
           [] [] ] ].
 
-(* SearchTask._simple_search  <->  simple_step + push *)
-Definition x_simple_search : list xstm :=
-  [ XEv (Call "def_run");                 (* sd_run d l *)
-    XIf 0 [XRet 0] [];                    (* None => (tt, []) *)
-    XEv (Call "new_result");              (* mk_result d ln g *)
-    XEv (Call "buffer_append");           (* push: t_buf st ++ [r] *)
-    XIf 1 [XEv (Call "flush")] [] ].      (*   NBUF <=? length => flush *)
-
 (* SearchResult.store_result  <->  store_result: tied through the
    expressions and the branch condition extracted by the plugin
    (C01_store_result_indices, C01_store_result_loop_condition), which
    accepts if/else, negated-and-swapped and guard-clause forms *)
 
-(* SearchTask._run_search  <->  run_file / run_search / lines_loop /
-   slots_step / slot_step *)
-Definition x_run_search : list xstm :=
+(* SearchTask._run_search with _simple_search in place of its call (built by
+   the plugin: Gen/XTask.v tk_run_search_full), guard clauses of the loop
+   bodies eliminated ([xshape_guarded])
+   <->  run_file / run_search / lines_loop / slots_step / slot_step /
+        simple_step / push *)
+Definition x_run_search_full : list xstm :=
   [ XEv (Call "stats_reset");
     XLoop 0 [ XIf 0 [XEv (Call "seq_reset")] [] ];  (* init of the handlers *)
     XEv (Call "apply_global");            (* run_file: apply_global ... *)
@@ -425,7 +503,11 @@ Definition x_run_search : list xstm :=
               [];                         (*       else runnable := allp *)
             XIf 3                         (*     step (sl_def s) .. ln l *)
               [ XEv (Call "sequence_search") ]
-              [ XEv (Call "simple_search") ] ] ];
+              [ XEv (Call "def_run");     (*       simple_step: sd_run d l *)
+                XIf 4 []                  (*         None => (tt, []) *)
+                  [ XEv (Call "new_result");     (*  Some g => mk_result *)
+                    XEv (Call "buffer_append");  (*  push: t_buf st ++ [r] *)
+                    XIf 5 [XEv (Call "flush")] [] ] ] ] ]; (* NBUF <=? len *)
     XEv (Call "process_sequences");       (* post (slot_states sls) ln *)
     XRet 0 ].                             (* (logging blocks are pruned) *)
 
@@ -690,7 +772,7 @@ Definition on_shape {A} (shape : option (list xstm))
 
 (* ================================ constructors: which source feeds what *)
 (* [writes t]: every write event of a skeleton with the block it sits in
-   ("" = top level, "then" / "else" / "loop" / "try" ..., nested with '.')
+   ("" = top level, "if" / "loop" / "try" ..., nested with '.')
    and the reads / calls evaluated since the previous write of that block
    (a branch starts afresh, a loop body inherits the reads of its iterable).
    Independent assignments may be re-ordered, log lines and locals added;
@@ -714,7 +796,9 @@ Fixpoint writes_stm (ctx : string) (pend : list string) (s : stm)
   | SEv (Wr c) => ([(c, ctx, pend)], [])
   | SEv _ | SRaise _ | SExit => ([], pend)
   | SIf a b =>
-      ((go (ctx_in ctx "then") [] a ++ go (ctx_in ctx "else") [] b)%list, [])
+      (* both branches are "if": which one runs on which polarity of the
+         test is the business of the extracted expressions *)
+      ((go (ctx_in ctx "if") [] a ++ go (ctx_in ctx "if") [] b)%list, [])
   | SLoop b => (go (ctx_in ctx "loop") pend b, [])
   | STry b hs o f =>
       ((go (ctx_in ctx "try") [] b
@@ -763,16 +847,16 @@ Definition sdef_of_args (key : Z) (is_list : bool) (single : Z)
 (* expected provenance tables *)
 Definition w_searchdef_init : list (string * list (string * list string)) :=
   [ ("patterns",                          (* s_pats *)
-     [ ("then", ["arg_pattern"; "re_compile"]);      (* [compile pattern] *)
-       ("else", []);                                 (* [] *)
-       ("else.loop", ["arg_pattern"; "re_compile"]) ]); (* map compile *)
+     [ ("if", ["arg_pattern"; "re_compile"]);        (* [compile pattern] *)
+       ("if", []);                                   (* [] *)
+       ("if.loop", ["arg_pattern"; "re_compile"]) ]);   (* map compile *)
     ("store_result_contents",             (* s_store *)
      [ ("", ["arg_store_result_contents"]) ]);
     ("tag", [ ("", ["arg_tag"]) ]);       (* s_tag *)
     ("field_info", [ ("", ["arg_field_info"]) ]);
     ("hint",                              (* s_hint *)
      [ ("", ["arg_hint"]);                           (* as given (falsy) *)
-       ("then", ["arg_hint"; "re_compile"]) ]);      (* compiled when truthy *)
+       ("if", ["arg_hint"; "re_compile"]) ]);        (* compiled when truthy *)
     ("sequence_def", [ ("", []) ]) ].     (* None *)
 
 Definition w_searchdefbase_init : list (string * list (string * list string)) :=
@@ -789,7 +873,7 @@ Definition w_searchtask_init : list (string * list (string * list string)) :=
     ("constraints_manager", [ ("", ["arg_constraints_manager"]) ]);
     ("results_manager", [ ("", ["arg_results_manager"]) ]);
     ("decode_kwargs",                     (* the decode oracle's policy *)
-     [ ("", []); ("then", ["arg_decode_errors"]) ]);
+     [ ("", []); ("if", ["arg_decode_errors"]) ]);
     ("results_buffer", [ ("", []) ]) ].   (* t_buf = [] *)
 
 Definition w_resultsmanager_init
@@ -797,6 +881,26 @@ Definition w_resultsmanager_init
   [ ("results_store", [ ("", ["arg_results_store"]) ]);
     ("results_queue", [ ("", ["arg_results_queue"]) ]);
     ("results_collection", [ ("", ["arg_results_collection"]) ]) ].
+
+(* two provenance tables agree: same attributes in the same order, and for
+   each the same writes up to their order *)
+Definition str_list_eqb (a b : list string) : bool :=
+  (length a =? length b)%nat && forallb (fun p => String.eqb (fst p) (snd p))
+                                        (combine a b).
+Definition write_eqb (a b : string * list string) : bool :=
+  String.eqb (fst a) (fst b) && str_list_eqb (snd a) (snd b).
+Definition writes_same (a b : list (string * list string)) : bool :=
+  (length a =? length b)%nat
+  && forallb (fun x => existsb (write_eqb x) b) a
+  && forallb (fun x => existsb (write_eqb x) a) b.
+Fixpoint tables_same (a b : list (string * list (string * list string)))
+  : bool :=
+  match a, b with
+  | [], [] => true
+  | (f, wa) :: ra, (g, wb) :: rb =>
+      String.eqb f g && writes_same wa wb && tables_same ra rb
+  | _, _ => false
+  end.
 
 Definition writes_table (fields : list string) (t : list stm)
   : list (string * list (string * list string)) :=
